@@ -1,6 +1,6 @@
 """C01 — CQL value encoding conforms to the protocol and round-trips.
 
-Proof stage: Props/C01.vo (39 pinned theorems + 12 pinned Examples about Model/Cql.v, Model/CqlTyped.v, Model/Vint.v).
+Proof stage: Props/C01.vo (41 pinned theorems + 13 pinned Examples about Model/Cql.v, Model/CqlTyped.v, Model/Vint.v).
 Tie stage: harness/src/bin/c01.rs runs the real scylla-cql-core codec, ocaml/c01/driver evaluates
 the extracted model; census of the Rust enums / tables the model was written from.
 """
@@ -265,7 +265,7 @@ SPEC = {
         "hooks scylla_cql_core::frame::types::verif_vint (pass-through to the crate-private vint codec) and "
         "scylla_cql_core::value::verif_extern (re-export of chrono/time/num-bigint/bigdecimal/secrecy for the harness)",
         "typed carriers: 20 leaf families, wrappers, collections and tuples are modelled (Model/CqlTyped.v) and proved to write / read "
-        "what the dynamic value they embed into writes / reads, plain carriers reading back the very value written (C01_typed_write/_read/_roundtrip/_roundtrip_exact), and that model is tied on the T "
+        "what the dynamic value they embed into writes / reads, plain carriers reading back the very value written (C01_typed_write/_read/_roundtrip/_roundtrip_exact; with nulls anywhere inside: C01_typed_roundtrip_cells), and that model is tied on the T "
         "and E cases; bigdecimal, chrono and time carriers are tied by differential execution against the dynamic model only; "
         "the case line carries the carrier value as its embedded cell after a round trip through the carrier "
         "(from_cell . to_cell in the runner) - trusted harness code; HashSet/HashMap carriers are compared up to element order, "
